@@ -1661,7 +1661,7 @@ package crypto
 //@ loop 3 invariant [summed-so-far long] forall(k, 1, i, ptAt(elemsG1, k) == at(old(pdkG1(sig, hashes, hashes_per_pk)), k))
 //@ loop 3 assigns elemsG1[1:nb_pks+1], tmp_hashes[0:tmp_hashes_size], i, data_offset, index_offset
 //@ loop 4 invariant [range] 0 <= j && j <= hashes_per_pk[i-1] && index_offset == isum(hashes_per_pk, i-1) + j && data_offset == 128*index_offset
-//@ loop 4 invariant [hashed-so-far long] forall(m, 0, j, ptAt(tmp_hashes, m) == at(h2cSeqAt(&hashes[128*isum(hashes_per_pk, i-1)]), m))
+//@ loop 4 invariant [partial-sums-agree long] e1sum(tmp_hashes, j) == e1sum(h2cSeqAt(&hashes[128*isum(hashes_per_pk, i-1)]), j)
 //@ loop 4 assigns tmp_hashes[0:tmp_hashes_size], j, data_offset, index_offset
 
 // ---- VerifyBLSSignatureManyMessages (C02): input validation, error classes, and the preconditions of the two C functions
